@@ -137,6 +137,20 @@ def check(ctx):
     for X, ok_ in who_ok.items():
         if not ok_:
             ctx.fail('C20.2', '-', '%s.data is locked outside its accessor: Once gating does not apply' % X, key='C20.2|who|' + X)
+    # declared hierarchy. Every store hands its MutexGuard to callers (GLOBAL_FUNCTIONS.get(), with_format_context!, ..), so a thread
+    # may hold any one of them while it calls into the library. Acyclicity of the library's own edges is then not enough: outside the
+    # one-time initialisers the library itself may nest data locks only along the declared order (format context, then dcbor's tag
+    # store); any other nesting X -> Y deadlocks against a thread that holds Y and formats.
+    DECLARED = {('FC.data', 'TAGS.data')}
+    undeclared = {}
+    for e in edges:
+        if e['inside_once'] is None and e['held'].endswith('.data') and e['acq'].endswith('.data') and e['held'] != e['acq'] and (e['held'], e['acq']) not in DECLARED:
+            undeclared.setdefault((e['held'], e['acq']), e)
+    for (h_, a_), e in sorted(undeclared.items()):
+        ctx.fail('C20.2', e['where'], 'lock nesting %s -> %s outside the declared hierarchy %s (via %s): a thread holding the %s guard that formats / looks up deadlocks against it'
+                 % (h_, a_, sorted(DECLARED), ' > '.join(x.split('::')[-1] for x in e['witness'][-3:]), a_.split('.')[0]), key='C20.2|undeclared|%s>%s' % (h_, a_))
+    if not undeclared:
+        ctx.ok('C20.2', '-', 'outside the initialisers the only nesting of global data locks is the declared one %s' % sorted(DECLARED))
     # no initialiser reaches its own accessor
     selfinit = [e for e in edges if e['held'].endswith('.once') and e['acq'].split('.')[0] == e['held'].split('.')[0] and any(w.endswith('::get') for w in e['witness'][1:])]
     for e in selfinit:
